@@ -24,15 +24,12 @@ Theorem C13_keys_recognised : forallb no_unknown key_table = true.
 Proof. exact keys_recognised. Qed.
 Print Assumptions C13_keys_recognised.
 
-Theorem C13_raw_key_classes : map k_class (filter raw_only key_table) =
-  ["Vector2D"; "Point2D"; "Arc2D"; "Vector3D"; "Point3D"; "Plane"; "Sphere"; "Cone"; "Cylinder"].
+(* all 21 classes key equality and hash on their defining values (no class hashes its coordinates into the key any more) *)
+Theorem C13_raw_key_classes : map k_class (filter raw_only key_table) = map k_class key_table.
 Proof. exact raw_key_classes. Qed.
 Print Assumptions C13_raw_key_classes.
 
-(* exactly the classes listed as known findings (hash-of-coordinate keys) *)
-Theorem C13_hashed_key_classes : map k_class (filter (fun r => negb (raw_only r)) key_table) =
-  ["Ray2D"; "LineSegment2D"; "Polyline2D"; "Polygon2D"; "Mesh2D"; "Ray3D"; "LineSegment3D"; "Arc3D"; "Polyline3D"; "Mesh3D";
-   "Polyface3D"; "Face3D"].
+Theorem C13_hashed_key_classes : map k_class (filter (fun r => negb (raw_only r)) key_table) = [].
 Proof. exact hashed_key_classes. Qed.
 Print Assumptions C13_hashed_key_classes.
 
